@@ -101,6 +101,13 @@ def correspond(run):
                  "observed": c["bytes"][:64], "expected": r[:64]})
             break
     run.oblige("direct:second-call-same-bytes", "correspondence", not again, "second get_sig differs for %s" % again[:3])
+    for lk in js.get("sha_long_keys", []):
+        if min(lk["wins"]) == 0:
+            run.violation("sha-long-keys", "ProbMinHash3aSha<Vec<u8>> (128 positions, equal weights): of two keys of %d bytes that differ only in their last "
+                          "byte one wins %d positions and the other %d - they are hashed as the same object" % (lk["bytes"], lk["wins"][0], lk["wins"][1]),
+                          {"kind": "impl-input", "input": {"key_bytes": lk["bytes"], "keys": "k1[i] = (7 i + 3) mod 256, k2 = k1 with the last byte xor 0x55",
+                                                           "weights": [1.0, 1.0], "m": 128}, "observed": lk["wins"]})
+            break
     # the bytes are what the Sha variant hashes: its signatures must be those of the model run on scripts drawn from
     # generators seeded with Sha512_256(get_sig(key)) - for every key, whatever was hashed before it
     from props import pmhlib
